@@ -191,22 +191,23 @@ def run(res):
     thorough = res.tier == "thorough"
     bins = core.build([VARIANT])
     items = []
-    shape = (2, 2, 3, True) if thorough else (1, 2, 3, True)
+    shape = (3, 4, 6, True) if thorough else (2, 3, 4, True)
     for desc, star in signatures(*shape):
         for lam in (False, True):
             if lam and any(d[3] for d in desc):
                 continue
             items.append((desc, star, lam))
-    if not thorough:
-        rng = core.rng_for(res.seed, "c14")
-        extra = [(d, s, False) for d, s in signatures(2, 2, 3, False) if sum(1 for x in d if x[0] == "posonly") == 2]
-        rng.shuffle(extra)
-        items += extra[:1500]
+    # per-parameter annotation masks (the enumeration above annotates all or none): seeded sample
+    rng = core.rng_for(res.seed, "c14")
+    pool = [(d, st) for d, st in signatures(2, 2, 3, False) if len(d) >= 2]
+    for _ in range(20000 if thorough else 3000):
+        d, st = rng.choice(pool)
+        items.append(([(k, n, dv, rng.random() < .5) for k, n, dv, _ in d], st, False))
     parts = core.pmap(_work, tw.batches(items, 200), init=tw.init_state, initargs=(bins,))
     for p in parts:
         res.merge(p)
     res.exhaustive = True
-    res.cover["shape_bounds"] = {"posonly<=": shape[0] if thorough else "1 (2 sampled)", "args<=": shape[1], "kwonly<=": shape[2], "vararg": "0/1", "kwarg": "0/1",
+    res.cover["shape_bounds"] = {"posonly<=": shape[0], "args<=": shape[1], "kwonly<=": shape[2], "vararg": "0/1", "kwarg": "0/1",
                                  "defaults": "all legal subsets", "annotations": "on/off", "forms": ["def", "lambda"]}
     res.rule = ("all signatures with posonly<=%d, args<=%d, vararg 0/1, kwonly<=%d, kwarg 0/1, every legal default subset, annotations on/off, in def and "
                 "lambda form (exhaustive within these bounds); each default is a distinct integer; a case is one signature text" % shape[:3])
